@@ -28,6 +28,10 @@ def groups(sc, tier):
               bounded="capacity <= %d, 1-character names, 1 / 2 atoms" % n)
     gs = [Group("C14.K5.AddCrystal_builtin_full", "K5", "lemma_AddCrystal_builtin_full", functions=["Crystal_AddCrystal"], **kw),
           Group("C14.K5.ArrayInit", "K5", "lemma_ArrayInit", functions=["Crystal_ArrayInit", "Crystal_ArrayFree", "Crystal_Free"], **kw)]
+    kwl = dict(kw)
+    kwl["unwind"] = 30
+    kwl["bounded"] = "one concrete 25-character name, 1 atom"
+    gs.append(Group("C14.K5.MakeCopy_long_name", "K5", "lemma_MakeCopy_long_name", functions=["Crystal_MakeCopy", "Crystal_Free"], **kwl))
     for na in range(0, n + 1):
         for nc in range(0, na + 1):
             kw2 = dict(kw)
